@@ -151,6 +151,62 @@ def impl_functions(_: dict) -> dict:
     except BaseException as e:  # noqa: BLE001
         problems.append({"what": f"the body's exception was replaced by {type(e).__name__}"})
 
+    # ... whatever their class: every built-in exception class that can be built from one string, BaseException-only ones
+    # included, through every shape of wrapper (no / plain / tuple return hint, scope provider, method); the very object, with
+    # its args and without a __cause__ / replaced __context__
+    import builtins
+
+    classes = [c for c in vars(builtins).values() if isinstance(c, type) and issubclass(c, BaseException) and not issubclass(c, dltype.DLTypeError)]
+    objs = []
+    for c in sorted(classes, key=lambda c: c.__name__):
+        try:
+            objs.append(c("why"))
+        except Exception:  # noqa: BLE001, S112   (UnicodeError family, ExceptionGroup need other arguments)
+            continue
+    objs += [ExceptionGroup("g", [ValueError("v")]), UnicodeDecodeError("utf-8", b"x", 0, 1, "r"), type("Custom", (ValueError,), {})("c"), type("Lonely", (BaseException,), {})()]
+
+    class Prov:
+        def get_dltype_scope(self):
+            return {"a": 2}
+
+    state = {"exc": None}
+
+    @dltype.dltyped()
+    def r_none(x: A):
+        raise state["exc"]
+
+    @dltype.dltyped()
+    def r_hint(x: A) -> A:
+        raise state["exc"]
+
+    @dltype.dltyped()
+    def r_tuple(x: A) -> tuple[A, int]:
+        raise state["exc"]
+
+    @dltype.dltyped(scope_provider=Prov())
+    def r_prov(x: A) -> A:
+        raise state["exc"]
+
+    class RM:
+        @dltype.dltyped()
+        def m(self, x: A) -> A:
+            raise state["exc"]
+
+    for exc in objs:
+        for label, fn in (("no return hint", r_none), ("return hint", r_hint), ("tuple return hint", r_tuple), ("scope provider", r_prov), ("method", RM().m)):
+            n += 1
+            state["exc"] = exc
+            args_before = exc.args
+            try:
+                fn(X)
+                problems.append({"what": f"{label}: the body's {type(exc).__name__} did not propagate"})
+            except BaseException as e:  # noqa: BLE001
+                if e is not exc:
+                    problems.append({"what": f"{label}: the body's {type(exc).__name__} reached the caller as {type(e).__name__}: {e}"[:300]})
+                elif e.args != args_before or e.__cause__ is not None:
+                    problems.append({"what": f"{label}: the body's {type(exc).__name__} was modified on the way (args / __cause__)"})
+            exc.__traceback__ = None
+
     # methods, classmethods, staticmethods
     class K:
         def __init__(self) -> None:
